@@ -220,10 +220,26 @@ def _enumerate_gates(circuit: Circuit) -> tp.Dict[Label, int]:
     result: tp.Dict[Label, int] = dict()
     for input_label in circuit.inputs:
         result[input_label] = len(result)
-    for gate_label, gate_ in circuit.gates.items():
-        if gate_.gate_type == gate.INPUT:
-            continue
-        result[gate_label] = len(result)
+    # The decoder requires every operand to be defined before its user, so the
+    # gates are numbered in dependency order (storage order is kept whenever it
+    # already is a dependency order).
+    pending: tp.List[Label] = [
+        gate_label
+        for gate_label, gate_ in circuit.gates.items()
+        if gate_.gate_type != gate.INPUT
+    ]
+    while pending:
+        postponed: tp.List[Label] = []
+        for gate_label in pending:
+            if all(op in result for op in circuit.get_gate(gate_label).operands):
+                result[gate_label] = len(result)
+            else:
+                postponed.append(gate_label)
+        if len(postponed) == len(pending):
+            raise CircuitEncodingError(
+                "Circuit has a gate whose operands cannot be defined before it"
+            )
+        pending = postponed
     return result
 
 
